@@ -318,9 +318,10 @@ void ScriptMaster::Reset()
 
 void ScriptMaster::ExecuteRunning()
 {
-    if (CurrentThread())
+    if (CurrentThread() || ScriptExecutionStack::GetStackDepth() > 0)
     {
-        // don't do anything if there is a running thread
+        // don't do anything if there is a running thread,
+        // or if the running thread died while its VM is still on the native stack
         return;
     }
 
